@@ -7,21 +7,32 @@ fn main() {
     if args.len() > 1 && args[1] == "--worker" {
         iso::worker_main(&args[2..], &|n| vx_robust::resolve(n));
     }
+    if args.len() > 4 && args[1] == "--bench" {
+        // timing aid: run indices in this process, no isolation
+        vx_robust::warm(&args[2], false);
+        iso::cap_address_space(iso::WORKER_AS_BYTES);
+        let t = std::time::Instant::now();
+        let cx = vx_robust::run_in_process(&args[2], false, None, args[3].parse().unwrap(), args[4].parse().unwrap());
+        eprintln!("cpu {} ms", vx_robust::acc::cpu_ms());
+        eprintln!("{} evals in {:?}; outcomes {:?}", cx.acc.evals, t.elapsed(), cx.acc.outcomes);
+        return;
+    }
     let check = Check::from_args("C05", Level::Exploration);
     let thorough = check.thorough();
     check.set_rule(
-        "three exhaustively enumerated families, every member fed to every applicable public reading entry point in every listed configuration: \
+        "three exhaustively enumerated families, every member fed to every applicable public reading entry point: \
          (1) words: all words of length <= 4 (thorough 5) over an 18-letter alphabet of encoded structural atoms plus all words of length <= 3 (thorough 4) over the full 27-letter alphabet, \
-         encoded in Implicit VR LE / Explicit VR LE / Explicit VR BE, bare and wrapped as Part 10 files with a valid meta group with and without preamble; \
+         encoded in Implicit VR LE / Explicit VR LE / Explicit VR BE; the bare encoding goes to DataSetReader (3 value strategies x flexible on/off, 3 odd-length strategies), LazyDataSetReader (skip / into_owned, odd-length strategies), read_dataset_with_ts + dump, DicomCollector on a bare data set; \
+         wrapped as a Part 10 file with a valid meta group and preamble it goes to from_reader (odd-length strategies x preamble options) + dump + pixel decoding and DicomCollector (6 operation scripts); words of <= 3 letters also without preamble and with every configuration, words of <= 2 letters also through open_file; \
          (2) edits: for every seed (one data set per atom class x 3 syntaxes, nested and encapsulated data sets, 5 files incl. RLE/native/deflated, the meta group, 7 PDU kinds, RLE/JPEG/deflated/uncompressed frames, 2 DICOM JSON documents, 13 tag/selector/date/time/range strings) \
-         the seed, every truncation, every single-byte substitution from {00,01,7F,80,FE,FF,'A','\\\\'} (text seeds: 22 characters incl. 2-,3-,4-byte scalars), every single deletion, every single duplication, and every pair of substitutions inside 16-byte header windows (quick: primary windows only); \
-         (3) short inputs: every byte string of length <= 2 (thorough 3) bare, as body of each PDU type, after the magic code, as meta group content and as data set of a valid file; every string over a 14-class alphabet up to 6 (thorough 7) bytes and over a 6-class alphabet up to 9 (thorough 11) bytes for Tag::from_str / parse_tag / parse_selector, \
-         every byte string over 14 classes up to 5 (thorough 7) bytes for the date/time/date-time and range parsers; a DICOM JSON grammar (key x vr x Value x InlineBinary x BulkDataURI, pairs, nesting <= 2); pixel decoding over 8 transfer syntaxes x Rows x Columns x BitsAllocated x SamplesPerPixel x NumberOfFrames x 8 pixel data variants. \
+         the seed, every truncation, every single-byte substitution from {00,01,7F,80,FE,FF,'A','\\'} (text seeds: 22 characters incl. 2-,3-,4-byte scalars), every single deletion, every single duplication, and every pair of substitutions inside 16-byte header windows (quick: primary windows only); \
+         (3) short inputs: every byte string of length <= 2 bare, as body of each PDU type, after the magic code, as meta group content and as data set of a valid file (thorough: also every 3-byte string, bare); every string over a 14-class alphabet up to 6 (thorough 7) bytes and over a 6-class alphabet up to 9 (thorough 11) bytes for Tag::from_str / parse_tag / parse_selector, \
+         every byte string over 14 classes up to 5 (thorough 7) bytes for the date/time/date-time and range parsers; a DICOM JSON grammar (key x vr x Value x InlineBinary x BulkDataURI, pairs, nesting <= 2); pixel decoding (decode_pixel_data, decode_pixel_data_frame 0 and 1) over 8 transfer syntaxes x Rows x Columns x BitsAllocated x SamplesPerPixel x NumberOfFrames x 8 pixel data variants. \
          A case is (family, index, entry point, configuration, transfer syntax); distinct inputs are counted by (entry point, syntax, bytes) per shard; non-trivial = the subject was invoked on a non-empty input. \
-         Oracle: Ok or Err within 5 s, no panic (catch_unwind), no abort, no allocation failure under a 1 GiB address-space cap (worker subprocesses; a dead worker's culprit is re-run alone twice before it is reported)",
+         Oracle: Ok or Err within 5 s of CPU time (120 s wall clock), no panic (catch_unwind), no abort, no allocation failure under a 256 MiB address-space cap (worker subprocesses; the culprit of a dead worker is re-run alone twice in forked children before it is reported)",
     );
     check.assume("the statement is decided for the three bounded families only, not for all byte strings");
-    check.assume("a worker process is capped at 1 GiB of address space: an input that makes a reader request more than that aborts the worker and is reported as an abort");
+    check.assume("a worker process is capped at 256 MiB of address space: an input that makes a reader request more than that aborts the worker and is reported as an abort");
     check.assume("seeds are produced by the vx-ref reference encoder, dicom-ul write_pdu and the build's own JPEG encoder; they are inputs, not oracles");
 
     let pool = Pool::new(&check);
